@@ -1158,10 +1158,10 @@ def sibling_circuit(rng, symbols, max_ops=6):
     if rng.random() < 0.25:
         shared.append(SB.twin_param(rng, shared[0]))
     defs = None
-    if rng.random() < 0.2:  # two definitions under one name (a circuit holding both cannot be serialised, but binds)
+    if rng.random() < 0.45:  # two definitions under one name (a circuit holding both cannot be serialised, but binds)
         d1 = rand_def(rng, "Foo")
         order = tuple(d1.params_ordering)
-        d2 = rand_def(rng, "Foo", _def_width(d1), len(order), tuple(reversed(order)) if rng.random() < 0.5 else order)
+        d2 = rand_def(rng, "Foo", _def_width(d1), len(order), tuple(reversed(order)) if rng.random() < 0.3 else order)
         defs = [d1, d2]
     ops = SB.sibling_ops(rng, width, shared, rng.randint(2, max_ops), defs)
     for _ in range(rng.choice([0, 0, 1, 2])):
